@@ -38,6 +38,7 @@ type deferRec struct {
 	fn   Val
 	args []Val
 	pos  string
+	instr ssa.Instruction // the defer statement
 }
 
 type mapIter struct {
@@ -64,6 +65,7 @@ type Frame struct {
 	loopAC   map[*loopHdr]*assignsCtx // modifies clauses of the cut loops (checked inside their bodies)
 	unrolled map[*ssa.BasicBlock]int
 	retTo    ssa.Value // value in the caller frame that receives the result (nil: discard)
+	deferSite ssa.Instruction // for an inlined deferred call: the defer statement (after-hooks fire when it has run)
 	contract *FuncContract
 	oldHeaps map[string]string
 	params   []Val
